@@ -345,7 +345,10 @@ def check_export_columns(model, rep, mod, fn, unit_map):
     frame = {'module': mod, 'cls': None, 'fn': fn, 'depth': 0}
     body = strip_docstring(fn.body)
     loop = next((n for n in body if isinstance(n, ast.For) and 'time_variables' in ast.unparse(n.iter)
-                 and isinstance(n.target, ast.Name)), None)
+                 and (isinstance(n.target, ast.Name) or (isinstance(n.target, ast.Tuple) and len(n.target.elts) == 2
+                                                         and all(isinstance(e, ast.Name) for e in n.target.elts)
+                                                         and isinstance(n.iter, ast.Call) and isinstance(n.iter.func, ast.Attribute)
+                                                         and n.iter.func.attr == 'items'))), None)
     frames = [n for n in body if isinstance(n, ast.Assign) and isinstance(n.value, ast.Call)
               and ast.unparse(n.value.func).endswith('DataFrame')]
     if loop is None or len(frames) != 1 or not isinstance(frames[0].targets[0], ast.Name):
@@ -371,7 +374,12 @@ def check_export_columns(model, rep, mod, fn, unit_map):
                    why or f'{len(tcols)} columns before the variable loop', loc=loc)
         for var, param in UNIT_PARAM.items():
             s2 = st.copy()
-            s2.env[loop.target.id] = Sv(var)
+            if isinstance(loop.target, ast.Name):
+                s2.env[loop.target.id] = Sv(var)
+            else:       # for key, samples in <dict>.items():
+                s2.env[loop.target.elts[0].id] = Sv(var)
+                dval = sx.eval1(loop.iter.func.value, s2, frame)
+                s2.env[loop.target.elts[1].id] = sx.subscript(dval, Sv(var), s2, frame, loop)
             base = len(s2.effects)
             done = [o for o in sx.block(loop.body, [s2], frame) if o.kind in ('fall', 'continue')]
             cons = f'export_time_variables:column[{var}]'
